@@ -29,3 +29,24 @@ pub fn select_in_word_contract(x: u64, k: u32) -> u32 {
     kani::assume((x & ((1u64 << r) - 1)).count_ones() == k);
     r
 }
+
+/// Specification-level stand-in for `bits::scan_select` (prologue + block loop +
+/// tail), used where a harness treats the shared scan as already decided: C01
+/// shows `scan_select == this prefix-sum scan` for every content of up to 27
+/// words on both block-popcount paths. One plain loop, no SIMD kernel.
+pub fn scan_select_model(words: &[u64], start_word: usize, remaining: usize) -> Option<(usize, usize)> {
+    if start_word >= words.len() {
+        return None;
+    }
+    let mut rem = remaining;
+    let mut i = start_word;
+    while i < words.len() {
+        let pop = words[i].count_ones() as usize;
+        if pop > rem {
+            return Some((i, rem));
+        }
+        rem -= pop;
+        i += 1;
+    }
+    None
+}
